@@ -1966,10 +1966,14 @@ impl<'a> Searcher<'a> {
             result = match field_value.get_type() {
                 VariantType::String => {
                     let val = value.to_string();
+                    // the same pattern text means different things to different operators
+                    let glob_key = format!("glob:{}", val);
+                    let rx_key = format!("rx:{}", val);
+                    let like_key = format!("like:{}", val);
                     match op {
                         Op::Eq => match is_glob(&val) {
                             true => {
-                                let regex = self.regex_cache.get(&val);
+                                let regex = self.regex_cache.get(&glob_key);
                                 match regex {
                                     Some(regex) => {
                                         return regex.is_match(&field_value.to_string());
@@ -1979,7 +1983,7 @@ impl<'a> Searcher<'a> {
                                         let regex = Regex::new(&pattern);
                                         match regex {
                                             Ok(ref regex) => {
-                                                self.regex_cache.insert(val, regex.clone());
+                                                self.regex_cache.insert(glob_key, regex.clone());
                                                 return regex.is_match(&field_value.to_string());
                                             }
                                             _ => {
@@ -1993,7 +1997,7 @@ impl<'a> Searcher<'a> {
                         },
                         Op::Ne => match is_glob(&val) {
                             true => {
-                                let regex = self.regex_cache.get(&val);
+                                let regex = self.regex_cache.get(&glob_key);
                                 match regex {
                                     Some(regex) => {
                                         return !regex.is_match(&field_value.to_string());
@@ -2003,7 +2007,7 @@ impl<'a> Searcher<'a> {
                                         let regex = Regex::new(&pattern);
                                         match regex {
                                             Ok(ref regex) => {
-                                                self.regex_cache.insert(val, regex.clone());
+                                                self.regex_cache.insert(glob_key, regex.clone());
                                                 return !regex.is_match(&field_value.to_string());
                                             }
                                             _ => {
@@ -2016,7 +2020,7 @@ impl<'a> Searcher<'a> {
                             false => val.ne(&field_value.to_string()),
                         },
                         Op::Rx => {
-                            let regex = self.regex_cache.get(&val);
+                            let regex = self.regex_cache.get(&rx_key);
                             match regex {
                                 Some(regex) => {
                                     return regex.is_match(&field_value.to_string());
@@ -2025,7 +2029,7 @@ impl<'a> Searcher<'a> {
                                     let regex = Regex::new(&val);
                                     match regex {
                                         Ok(ref regex) => {
-                                            self.regex_cache.insert(val, regex.clone());
+                                            self.regex_cache.insert(rx_key, regex.clone());
                                             return regex.is_match(&field_value.to_string());
                                         }
                                         _ => error_exit("Incorrect regex expression", val.as_str()),
@@ -2034,7 +2038,7 @@ impl<'a> Searcher<'a> {
                             }
                         }
                         Op::NotRx => {
-                            let regex = self.regex_cache.get(&val);
+                            let regex = self.regex_cache.get(&rx_key);
                             match regex {
                                 Some(regex) => {
                                     return !regex.is_match(&field_value.to_string());
@@ -2043,7 +2047,7 @@ impl<'a> Searcher<'a> {
                                     let regex = Regex::new(&val);
                                     match regex {
                                         Ok(ref regex) => {
-                                            self.regex_cache.insert(val, regex.clone());
+                                            self.regex_cache.insert(rx_key, regex.clone());
                                             return !regex.is_match(&field_value.to_string());
                                         }
                                         _ => error_exit("Incorrect regex expression", val.as_str()),
@@ -2052,7 +2056,7 @@ impl<'a> Searcher<'a> {
                             }
                         }
                         Op::Like => {
-                            let regex = self.regex_cache.get(&val);
+                            let regex = self.regex_cache.get(&like_key);
                             match regex {
                                 Some(regex) => {
                                     return regex.is_match(&field_value.to_string());
@@ -2062,7 +2066,7 @@ impl<'a> Searcher<'a> {
                                     let regex = Regex::new(&pattern);
                                     match regex {
                                         Ok(ref regex) => {
-                                            self.regex_cache.insert(val, regex.clone());
+                                            self.regex_cache.insert(like_key, regex.clone());
                                             return regex.is_match(&field_value.to_string());
                                         }
                                         _ => error_exit("Incorrect LIKE expression", val.as_str()),
@@ -2071,7 +2075,7 @@ impl<'a> Searcher<'a> {
                             }
                         }
                         Op::NotLike => {
-                            let regex = self.regex_cache.get(&val);
+                            let regex = self.regex_cache.get(&like_key);
                             match regex {
                                 Some(regex) => {
                                     return !regex.is_match(&field_value.to_string());
@@ -2081,7 +2085,7 @@ impl<'a> Searcher<'a> {
                                     let regex = Regex::new(&pattern);
                                     match regex {
                                         Ok(ref regex) => {
-                                            self.regex_cache.insert(val, regex.clone());
+                                            self.regex_cache.insert(like_key, regex.clone());
                                             return !regex.is_match(&field_value.to_string());
                                         }
                                         _ => error_exit("Incorrect LIKE expression", val.as_str()),
